@@ -78,6 +78,9 @@ def catalogue():
                                                                                                                                                  timeout=[timeout("2h", [step("ts1", [irq("ta1")])])])]), {})
     # steps and acts WITHOUT explicit ids (the engine generates them when the tree is built; the stored model must carry them for a reload)
     C["no_ids"] = ({"id": "m", "steps": [{"acts": [{"uses": "acts.core.irq", "key": "k1"}]}, {"acts": [{"uses": "acts.core.irq", "key": "k2"}, {"uses": "acts.core.irq", "key": "k3"}]}]}, {})
+    # a step that declares branches AND acts (tree check only)
+    C["branches_and_acts"] = (wf("m", [step("s1", [irq("x1"), irq("x2")], branches=[branch("b1", [step("s11", [irq("a1")])], **{"if": "c1"}), branch("b2", [step("s21", [irq("a2")])], **{"else": True})]),
+                                       step("s2", [irq("a3")])]), {"c1": "$bool"})
     C["two_steps"] = (wf("m", [step("s1", [irq("a1")]), step("s2", [irq("a2")])]), {})
     C["one_irq"] = (wf("m", [step("s1", [irq("a1")])]), {})
     C["if_else_first"] = (wf("m", [step("s1", branches=[
@@ -224,7 +227,7 @@ def catalogue():  # noqa: F811
 
 
 # skeletons that only make sense for a particular driver (tree check, engine-raised errors, reload with ticks)
-SPECIAL = ("step_next", "tmo_reload", "no_ids", "init_err_own_catch", "init_err_step_catch", "init_err_uncaught")
+SPECIAL = ("step_next", "tmo_reload", "no_ids", "branches_and_acts", "init_err_own_catch", "init_err_step_catch", "init_err_uncaught")
 
 
 def flow_names(extended=True):
